@@ -138,8 +138,26 @@ def version_line():
     return hx(name + " " + ver)
 
 
+LIMIT_NAMES = {"NICKLEN": "nick", "USERLEN": "user", "HOSTLEN": "host", "REALLEN": "real", "ACCOUNTLEN": "account", "CLASSLEN": "class"}
+
+
+def limits_arg():
+    """translator for the length limits of modules/iauth.h: the model is parametric in them, so a
+    changed limit re-checks instead of alarming"""
+    vals = {}
+    try:
+        txt = open(os.path.join(core.repo(), "modules/iauth.h")).read()
+        for cname, key in LIMIT_NAMES.items():
+            m = re.search(r"#define\s+%s\s+(\d+)" % cname, txt)
+            if m:
+                vals[key] = int(m.group(1))
+    except OSError:
+        pass
+    return ",".join("%s=%d" % kv for kv in sorted(vals.items()))
+
+
 def model_args(prop):
-    return ["model", "--version", version_line()]
+    return ["model", "--version", version_line(), "--limits", limits_arg()]
 
 
 def spec_args(prop):
